@@ -119,7 +119,8 @@ def cases(ctx):
                 c['missing'] = rng.choice([None, 'M'])
                 c['samplesize'] = rng.choice([None, None, 1, 2]) if c['keys'] is None else None
             elif kind == 'capture':
-                c['pattern'] = rng.choice([r'(\w)(\d*)', r'^(.)', r'(a)|(b)', r'([a-z]+)\W?(\d+)?', r'(A)|(B)', r'([A-Z]+)\W?(\d+)?'])
+                c['pattern'] = rng.choice([r'(\w)(\d*)', r'^(.)', r'(a)|(b)', r'([a-z]+)\W?(\d+)?', r'(A)|(B)', r'([A-Z]+)\W?(\d+)?',
+                                           r'^([a-z]*)(\d*)$', r'(x*)'])      # the last two also match the empty string
                 c['newfields'] = rng.choice([['g1', 'g2'], ['g1']])
                 c['fill'] = rng.choice([['F1', 'F2'], ['F']])
                 c['flags'] = rng.choice([0, 0, int(re.I)])
